@@ -510,8 +510,10 @@ SET_encode_der(const asn_TYPE_descriptor_t *td, const void *sptr, int tag_mode,
 		tmper = elm->type->op->der_encoder(elm->type, *memb_ptr2,
 			elm->tag_mode, elm->tag,
 			0, 0);
-		if(tmper.encoded == -1)
+		if(tmper.encoded == -1) {
+			FREEMEM(t2m_build);
 			return tmper;
+		}
 		computed_size += tmper.encoded;
 
 		/*
@@ -592,8 +594,10 @@ SET_encode_der(const asn_TYPE_descriptor_t *td, const void *sptr, int tag_mode,
 
 		tmper = elm->type->op->der_encoder(elm->type, *memb_ptr2,
 			elm->tag_mode, elm->tag, cb, app_key);
-		if(tmper.encoded == -1)
+		if(tmper.encoded == -1) {
+			FREEMEM(t2m_build);
 			return tmper;
+		}
 		computed_size -= tmper.encoded;
 	}
 
